@@ -21,7 +21,7 @@ for d in sorted(glob.glob(os.path.join(V, "seeded", "C*"))):
     if rc != 0:
         # a hand-rebased copy of the same change (stored next to the original when later repairs moved the context)
         for alt in sorted(glob.glob(os.path.join(d, "patch-rebased*.diff")), reverse=True):
-            sh(["git", "checkout", "--", "."], cwd=wt)
+            sh(["git", "reset", "--hard", "-q", "HEAD"], cwd=wt)
             rc, out2 = sh(["git", "apply", alt], cwd=wt)
             if rc == 0:
                 res["used"] = os.path.basename(alt); break
